@@ -382,6 +382,9 @@ func (g *GuardEval) eval(e ast.Expr, env map[string]int64, tc *termCollector) (i
 	switch x := e.(type) {
 	case *ast.ParenExpr:
 		return g.eval(x.X, env, tc)
+	case *ast.StarExpr:
+		// `*p` for a pointer that stands for a role-bearing variable (a counter passed by reference)
+		return g.eval(x.X, env, tc)
 	case *ast.UnaryExpr:
 		v, err := g.eval(x.X, env, tc)
 		if err != nil {
